@@ -5,12 +5,21 @@ P = dict(
     memcheck_stride=dict(quick=20, thorough=20),
     post='reports',
     level='exploration',
-    technique='runtime monitoring: generated runs executed by the real registry/runner, XML captured at the PlatformSpecificFOpen/FPuts/FClose seams, judged offline by Python expat (well-formedness) and a ground-truth comparison (faithfulness); ASan/UBSan build',
-    rule='case = one generated run (1..5 groups x 1..6 consecutive tests, pass / 1-2 failures / ignored, optional package, names, paths, failure texts and printed texts over printable ASCII weighted to & < > " \' | [ ] / \\ ? % * : and line breaks plus entity/CDATA/comment look-alikes), '
+    technique='runtime monitoring: generated runs executed by the real registry/runner (unfiltered, filtered by group/name filters of every kind, and with every test in a real forked child), XML captured at the PlatformSpecificFOpen/FPuts/FClose seams, judged offline by Python expat (well-formedness) and a ground-truth comparison (faithfulness; selection computed by an independent model of the filter rule); ASan/UBSan build',
+    rule='case = one generated run (1..5 groups x 1..6 consecutive tests, pass / 1-2 failures / ignored, optional package, names, paths, failure texts and printed texts over printable ASCII weighted to & < > " \' | [ ] / \\ ? % * : and line breaks plus entity/CDATA/comment look-alikes; '
+         'the empty string is a boundary value of group names (6 %, at most one per run), test names (4 %), failure texts and printed texts), '
          '65% driven directly through TestRegistry::runAllTests with a recording JUnitTestOutput subclass, 35% through CommandLineTestRunner -ojunit [-k pkg] [-v] [-r2]. '
+         '25 % of the runs carry one or two filters (group or name, substring or strict, selecting or excluding; text taken from a test of the run or absent from it; TestRegistry::setGroupFilters/setNameFilters or -g/-sg/-xg/-xsg/-n/-sn/-xn/-xsn): '
+         'every group with at least one selected test must produce, in run order, one file holding exactly its selected tests with true counts; what a wholly filtered-out group leaves behind (nothing, or a report without test cases) is not judged. '
+         '8 % of the runs (3 % in the thorough tier) execute every test in a forked child (registry flag or -p; children pass, fail checks, _exit(n) or are killed by SIGKILL/SIGTERM/SIGUSR1/SIGUSR2): the parent\'s files must carry a failure element exactly for the tests whose child failed (wording not judged). '
          'Non-trivial = run with a markup character in some name/path/message AND a failing AND an ignored test; distinct by the (group, test, outcome) sequence',
     floor=dict(quick=500, thorough=10000),
-    counter_floor=dict(quick=dict(junit_files_parsed=3000, junit_testcases_checked=8000), thorough=dict(junit_files_parsed=50000)),
-    assumptions=['unfiltered runs, default (consecutive) group order, distinct group names whose sanitised file names differ', 'printable ASCII plus CR/LF only (no other control characters, no bytes >= 0x80)', 'non-empty group and test names',
+    counter_floor=dict(quick=dict(junit_files_parsed=3000, junit_testcases_checked=8000, runs_filtered=400, runs_filter_drops_last_test_of_a_group_that_ran=100, junit_files_judged_in_filtered_runs=500,
+                                  junit_files_of_a_group_with_empty_name=150, tests_with_empty_name=400, runs_in_separate_processes=80, junit_parent_side_failures_seen=400),
+                       thorough=dict(junit_files_parsed=50000, runs_filtered=8000, runs_filter_drops_last_test_of_a_group_that_ran=2000, junit_files_judged_in_filtered_runs=10000,
+                                     junit_files_of_a_group_with_empty_name=3000, tests_with_empty_name=8000, runs_in_separate_processes=1000, junit_parent_side_failures_seen=5000)),
+    assumptions=['default (consecutive) group order, distinct group names whose sanitised file names differ', 'printable ASCII plus CR/LF only (no other control characters, no bytes >= 0x80)',
+                 'filtered runs: a test is selected iff some group filter (if any) accepts its group and some name filter (if any) accepts its name; non-strict filters are never empty; what a wholly filtered-out group produces is not judged (a captured file without testcase elements is skipped at such a position)',
+                 'separate-process runs: only the parent\'s files are judged; the text printed by a child and the wording/location of the parent-side failure are not judged (C11)',
                  'system-out may hold the output so far or only the current group\'s', 'the failure message may be any one of the test\'s failures', 'assertions/time/timestamp attributes are not judged'],
 )
